@@ -4,7 +4,7 @@
 export GOFLAGS=-mod=mod GOPROXY=off GOSUMDB=off GOTOOLCHAIN=local
 OUT=${1:-/verif/.scratch/baseline}
 mkdir -p "$OUT"
-cd /repo && go test -mod=mod -json -vet=off -count=1 -timeout 25m ./... > "$OUT/gotest.json" 2> "$OUT/gotest.err"
+cd /repo && go test -mod=mod -json -vet=off -count=1 -timeout 60m ./... > "$OUT/gotest.json" 2> "$OUT/gotest.err"
 python3 - "$OUT/gotest.json" <<'PY'
 import json,sys
 passed=set(); failed=set()
